@@ -75,7 +75,7 @@ fn ordered_as_ascii(a: &AigOwned) -> AigOwned {
 fn features_dimacs(d: &DimacsDoc, lit: u8, obs: &mut Obs) -> bool {
     let max = dimacs_max(lit);
     let mut any = false;
-    let mut f = |c: bool, name: &str, obs: &mut Obs| {
+    let f = |c: bool, name: &str, obs: &mut Obs| {
         if c {
             obs.class(format!("feature/{name}"));
         }
@@ -98,7 +98,7 @@ fn features_dimacs(d: &DimacsDoc, lit: u8, obs: &mut Obs) -> bool {
 fn features_aiger(d: &AigDoc, obs: &mut Obs) -> bool {
     let a = &d.aig;
     let mut any = false;
-    let mut f = |c: bool, name: &str, obs: &mut Obs| {
+    let f = |c: bool, name: &str, obs: &mut Obs| {
         if c {
             obs.class(format!("feature/{name}"));
         }
